@@ -94,3 +94,68 @@ func TestC07Big(t *testing.T) {
 		}
 	}
 }
+
+// Deterministic merge scenarios around the per-term chunk size of modes
+// 1025/1026: the writer must derive it anew for every term of every field,
+// from that term's surviving cardinality. A dense term (> 1024 hits) is the
+// last term of one field; the next field's first term is the same bytes, or
+// the empty term, with a few hits spread over the whole merged segment.
+func c06FixedPlans() []planCase {
+	var out []planCase
+	for _, cm := range []uint32{1025, 1026, 0} {
+		for _, zterm := range []string{"all", ""} {
+			for _, remerge := range []bool{false, true} {
+				wide := spec.MergePlan{Leaf: &spec.BatchSpec{Wide: &spec.WideSpec{N: 1100, Locs: true, DV: true}}, Mmap: true}
+				small := func(label string) spec.MergePlan {
+					b := &spec.BatchSpec{}
+					for i := 0; i < 3; i++ {
+						f := spec.FieldSpec{Name: spec.WideFieldName, Type: 't', DV: true, Len: 1, Tokens: []spec.TokenSpec{{Term: "all", Freq: 1, Locs: []spec.LocSpec{{Pos: 1, Start: 0, End: 3}}}}}
+						zt := spec.TokenSpec{Term: spec.B(zterm), Freq: 1 + i%3}
+						for j := 0; j < zt.Freq; j++ {
+							zt.Locs = append(zt.Locs, spec.LocSpec{Pos: j + 1, Start: j, End: j + 1})
+						}
+						z := spec.FieldSpec{Name: "zf", Type: 't', Len: zt.Freq, Tokens: []spec.TokenSpec{zt}}
+						b.Docs = append(b.Docs, spec.DocSpec{ID: spec.B(fmt.Sprintf("%s%d", label, i)), Fields: []spec.FieldSpec{f, z}})
+					}
+					return spec.MergePlan{Leaf: b}
+				}
+				p := &spec.MergePlan{ChunkMode: cm, Children: []spec.MergePlan{small("s"), wide, small("t")},
+					Drops: []spec.DropSpec{{Nil: true}, {Docs: []uint32{5, 6}}, {}}}
+				if remerge {
+					p = &spec.MergePlan{ChunkMode: cm, Children: []spec.MergePlan{*p}, Drops: []spec.DropSpec{{Docs: []uint32{1}}}}
+				}
+				out = append(out, planCase{Plan: p})
+			}
+		}
+		// the dense term is absent from the first input (which has the field), and the dense
+		// input's deletions take the surviving cardinality from above 1024 to below it
+		for _, remerge := range []bool{false, true} {
+			first := &spec.BatchSpec{}
+			for i := 0; i < 5; i++ {
+				first.Docs = append(first.Docs, spec.DocSpec{ID: spec.B(fmt.Sprintf("f%d", i)), Fields: []spec.FieldSpec{{Name: spec.WideFieldName, Type: 't', DV: true, Len: 1,
+					Tokens: []spec.TokenSpec{{Term: "other", Freq: 1, Locs: []spec.LocSpec{{Pos: 1, Start: 0, End: 5}}}}}}})
+			}
+			var drop spec.DropSpec
+			for d := 0; d < 1100; d += 9 {
+				drop.Docs = append(drop.Docs, uint32(d))
+			}
+			p := &spec.MergePlan{ChunkMode: cm, Children: []spec.MergePlan{{Leaf: first},
+				{Leaf: &spec.BatchSpec{Wide: &spec.WideSpec{N: 1100, Period: 2, Locs: true, DV: true}}, Mmap: true}},
+				Drops: []spec.DropSpec{{}, drop}}
+			if remerge {
+				p = &spec.MergePlan{ChunkMode: cm, Children: []spec.MergePlan{*p}, Drops: []spec.DropSpec{{Nil: true}}}
+			}
+			out = append(out, planCase{Plan: p})
+		}
+	}
+	return out
+}
+
+func TestC06Fixed(t *testing.T) {
+	col := stats.New("C06", "merge-index")
+	defer col.Write()
+	for _, c := range c06FixedPlans() {
+		col.CaseHash(stats.HashJSON(c), true, []string{"dense-last-term-then-sparse-first-term"}, func() any { return sampleOf(c) })
+		reportBig(t, col, "C06", "merge-index", c, safeRun(c06, c))
+	}
+}
